@@ -69,6 +69,8 @@ func (m *vestMachine) ownerAddrs() []sdk.AccAddress {
 	}
 	if m.vestingOwner != nil {
 		out = append(out, m.vestingOwner)
+		// ... and with it the periodic, delayed and permanently locked accounts of the history, if it has them
+		out = append(out, m.otherKinds...)
 	}
 	return out
 }
@@ -184,7 +186,10 @@ func (m *vestMachine) actCreatePool() {
 	vt := vtNames[rapid.IntRange(0, len(vtNames)-1).Draw(t, "vtype")]
 	bal := m.v.Bal(owner).AmountOf(Denom)
 	var amt sdk.Int
-	switch rapid.IntRange(0, 6).Draw(t, "amtKind") {
+	switch rapid.IntRange(0, 7).Draw(t, "amtKind") {
+	case 7:
+		// one more than the owner can spend (an owner with locked coins still holds that much)
+		amt = m.v.App.BankKeeper.SpendableCoins(m.v.Ctx, owner).AmountOf(Denom).AddRaw(1)
 	case 0:
 		amt = sdk.ZeroInt()
 	case 1:
@@ -578,11 +583,18 @@ func (m *vestMachine) actCreateVestingAccount() {
 	}
 	coins := sdk.Coins{}
 	bal := m.v.Bal(from)
-	switch rapid.IntRange(0, 4).Draw(t, "coinsKind") {
+	switch rapid.IntRange(0, 5).Draw(t, "coinsKind") {
 	case 0:
 		coins = sdk.Coins{}
 	case 1:
 		coins = sdk.NewCoins(sdk.NewCoin(Denom, bal.AmountOf(Denom).AddRaw(1)))
+	case 5:
+		// more than the sender can spend, not more than it holds (a sender with locked coins)
+		sp := m.v.App.BankKeeper.SpendableCoins(m.v.Ctx, from).AmountOf(Denom)
+		coins = sdk.NewCoins(sdk.NewCoin(Denom, sp.AddRaw(1)))
+		if rapid.Bool().Draw(t, "wholeBalance") {
+			coins = sdk.NewCoins(sdk.NewCoin(Denom, bal.AmountOf(Denom)))
+		}
 	default:
 		coins = sdk.NewCoins(sdk.NewCoin(Denom, sdk.NewIntFromBigInt(genAmount(t, "amt", 20, false))))
 	}
@@ -709,7 +721,7 @@ func (m *vestMachine) otherKindAccounts() {
 		}
 		acc = m.v.App.AccountKeeper.NewAccount(m.v.Ctx, acc)
 		m.v.App.AccountKeeper.SetAccount(m.v.Ctx, acc)
-		FundAccount(m.v.App, m.v.Ctx, a, ov)
+		FundAccount(m.v.App, m.v.Ctx, a, ov.Add(sdk.NewInt64Coin(Denom, 5000))) // (5000 liquid coins next to the locked ones)
 		m.otherKinds = append(m.otherKinds, a)
 	}
 }
